@@ -22,7 +22,9 @@ RULE = ("lock-step differential: every operation of a history (awaited call, fai
         "All histories of length <= 4 over a 7-operation alphabet for maxsize 1 and 2 are enumerated; seeded random "
         "histories up to length 40 over patterns mixing 0 1 2 1.0 True False '1' 'a' None (1,2) (1.0,2) 0.0 -0.0, "
         "0..3 positional and 0..2 keyword args in both keyword orders; maxsize None/-1/0/1..5/default; typed; bare "
-        "and parenthesised decorators; function/method (two instances)/classmethod/staticmethod. non-trivial = "
+        "and parenthesised decorators; function/method (two instances)/classmethod/staticmethod; RE-ENTRANT histories: "
+        "the wrapped function calls its own cache for other arguments along a random DAG / fib-like recursion deeper "
+        "than maxsize, with failing nodes and clears between top-level calls. non-trivial = "
         "history with at least one hit and (one eviction or one discard or one clear or a failing call); "
         "distinct = (configuration, history)")
 ASSUMPTIONS = ["functools.lru_cache (C implementation of the running 3.12 interpreter) is the reference",
@@ -68,6 +70,17 @@ def cases(tier, seed, shard, nshards):
                     yield {"maxsize": maxsize, "typed": False, "form": "paren", "kind": "function", "ops": list(hist),
                            "enumerated": True}
     rng = random.Random(f"C10-{seed}-{shard}")
+    # re-entrant histories: the wrapped function calls its own cache for other arguments (recursion deeper than
+    # maxsize, shared sub-problems); still one sequential history, with a synchronous twin under functools
+    for _ in range(N_RANDOM[tier] // nshards // 12):
+        nn = rng.randint(2, 9)
+        children = [sorted(rng.sample(range(k), min(k, rng.choice([0, 1, 1, 2, 2, 3])))) if k else [] for k in range(nn)]
+        if rng.random() < 0.3:
+            children = [[k - 1] + ([k - 2] if k > 1 else []) if k else [] for k in range(nn)]  # fib-like
+        tops = [rng.choice(["clear"]) if rng.random() < 0.12 else rng.randrange(nn) for _ in range(rng.randint(1, 6))]
+        yield {"kind": "reentrant", "maxsize": rng.choice([None, 0, 1, 1, 2, 2, 3, 4, 6, "default"]), "children": children,
+               "tops": tops, "fail": sorted(rng.sample(range(nn), rng.choice([0, 0, 0, 1]))),
+               "form": rng.choice(["paren", "bare"])}
     for _ in range(N_RANDOM[tier] // nshards):
         small = rng.random() < 0.6
         pats = [rand_pattern(rng, small) for _ in range(rng.randint(1, 6))]
@@ -257,7 +270,76 @@ def _outcome(thunk):
         return ("raise", type(exc).__name__)
 
 
+def run_reentrant(case, stats):
+    CTX.reset()
+    children, fail = case["children"], set(case["fail"])
+    loga, logs = [], []
+
+    def deco(mod, fn):
+        if case["form"] == "bare" or case["maxsize"] == "default":
+            return mod.lru_cache(fn)
+        return mod.lru_cache(maxsize=case["maxsize"])(fn)
+
+    async def af(n):
+        loga.append(n)
+        parts = []
+        for c in children[n]:
+            try:
+                parts.append(await ca(c))
+            except ValueError:
+                parts.append("failed")
+        if n in fail:
+            raise ValueError(n)
+        return (n, tuple(parts), len(loga))
+
+    def sf(n):
+        logs.append(n)
+        parts = []
+        for c in children[n]:
+            try:
+                parts.append(cs(c))
+            except ValueError:
+                parts.append("failed")
+        if n in fail:
+            raise ValueError(n)
+        return (n, tuple(parts), len(logs))
+
+    ca, cs = deco(A, af), deco(functools, sf)
+    viols = []
+    head = f"lru_cache maxsize={case['maxsize']} form={case['form']} re-entrant children={children} fail={case['fail']}"
+    depth_seen = 0
+    for i, top in enumerate(case["tops"]):
+        if top == "clear":
+            ca.cache_clear(); cs.cache_clear()
+            ra = rs = None
+        else:
+            ra = _outcome(lambda: run_sync(ca(top)))
+            rs = _outcome(lambda: cs(top))
+        ia, is_ = tuple(ca.cache_info()), tuple(cs.cache_info())
+        problem = None
+        if ra != rs:
+            problem = f"result {ra} vs functools {rs}"
+        elif ia != is_:
+            problem = f"cache_info {ia} vs functools {is_}"
+        elif loga != logs:
+            problem = f"invocations {loga} vs functools {logs}"
+        if problem:
+            key = "lru_cache/reentrant-" + ("result" if problem.startswith("result") else "cache_info" if problem.startswith("cache_info") else "invocations")
+            viols.append({"key": key, "msg": f"{head}: after top-level op {i} of {case['tops']}: {problem}"[:900]})
+            break
+    if CTX.foreign:
+        viols.append({"key": "lru_cache/suspends-without-user-awaitable", "msg": CTX.foreign[0]})
+    info = tuple(ca.cache_info())
+    stats["reentrant_histories"] += 1
+    deep = isinstance(case["maxsize"], int) and case["maxsize"] > 0 and len(set(loga)) > case["maxsize"]
+    if deep:
+        stats["reentrant_deeper_than_maxsize"] += 1
+    return {"violations": viols, "nontrivial": bool(deep and info[0]), "sig": ("reentrant", str(case))}
+
+
 def run_case(case, stats: Counter):
+    if case.get("kind") == "reentrant":
+        return run_reentrant(case, stats)
     CTX.reset()
     env = build(case)
     ba, bs, bm = env["backends"]
@@ -335,7 +417,8 @@ def run_case(case, stats: Counter):
 
 
 def finish(stats, tier):
-    for need in ("hits", "evictions", "discards", "oracle_selftest", "kind_method", "kind_classmethod", "kind_staticmethod"):
+    for need in ("hits", "evictions", "discards", "oracle_selftest", "kind_method", "kind_classmethod", "kind_staticmethod",
+                 "reentrant_histories", "reentrant_deeper_than_maxsize"):
         if not stats.get(need):
             return f"deciding counter {need} is zero"
     return None
